@@ -194,6 +194,12 @@ func (r *Run) endPath(st *State, kind EndKind, msg string) {
 func (r *Run) runPath(st *State) {
 	for {
 		if len(st.Frames) == 0 {
+			if rp, ok := st.Hook.(*POReplay); ok && st.Hook != nil && st.Rp != nil {
+				more, err := rp.threadEnd(r, st)
+				if err == nil && more {
+					continue
+				}
+			}
 			r.endPath(st, EndReturn, "")
 			return
 		}
@@ -207,6 +213,15 @@ func (r *Run) runPath(st *State) {
 			if pe, ok := err.(pathEnd); ok {
 				if pe.kind == EndPanic {
 					// uncaught panic reached top
+					if rp, ok := st.Hook.(*POReplay); ok && st.Hook != nil && st.Rp != nil && st.PanicOK {
+						// a thread ended by a panic the harness allows: the others go on
+						st.Panic = nil
+						if more, err := rp.threadEnd(r, st); err == nil && more {
+							continue
+						}
+						r.endPath(st, EndReturn, "")
+						return
+					}
 					r.onUncaughtPanic(st)
 					return
 				}
@@ -424,6 +439,26 @@ func (r *Run) unwind(st *State) error {
 			if po, ok := st.Hook.(*PO); ok && st.Hook != nil && po.deferredIsSite(st, d) {
 				if _, merged := po.atSite(st, token.NoPos); merged {
 					return pathEnd{EndMerged, ""}
+				}
+			}
+			if rp, ok := st.Hook.(*POReplay); ok && st.Hook != nil && rp.PO.deferredIsSite(st, d) {
+				if !rp.nextIsCurrent(st) {
+					// (the panic record is per state, not per thread)
+					rp.note(st, "thread switch in the middle of a panic unwinding is not supported by the replay")
+					return pathEnd{EndInfeasible, "replay: switch during unwinding"}
+				}
+				act, err := rp.atSite(r, st, st.curPos())
+				if err != nil {
+					return err
+				}
+				switch act {
+				case rpSwitched:
+					f.Defers = append(f.Defers, d)
+					return nil
+				case rpStop:
+					return pathEnd{EndInfeasible, "replay: schedule complete"}
+				case rpDiverged:
+					return pathEnd{EndInfeasible, "replay: diverged"}
 				}
 			}
 			nf := len(st.Frames)
@@ -691,6 +726,24 @@ func (r *Run) step(st *State) error {
 	}
 	in := f.Block.Instrs[f.PC]
 	if st.Hook != nil {
+		if rp, ok := st.Hook.(*POReplay); ok && rp.PO.isSite(r, st, in) {
+			pos := st.pos(in.Pos())
+			if pos == "" {
+				pos = st.curPos()
+			}
+			act, err := rp.atSite(r, st, pos)
+			if err != nil {
+				return err
+			}
+			switch act {
+			case rpSwitched:
+				return nil
+			case rpStop:
+				return pathEnd{EndInfeasible, "replay: schedule complete"}
+			case rpDiverged:
+				return pathEnd{EndInfeasible, "replay: diverged"}
+			}
+		}
 		if po, ok := st.Hook.(*PO); ok {
 			if st.Resume != nil && st.Resume.instr != in {
 				st.Resume = nil
@@ -934,6 +987,25 @@ func (r *Run) exec(st *State, f *Frame, in ssa.Instruction) error {
 				return pathEnd{EndMerged, ""}
 			}
 		}
+		if rp, ok := st.Hook.(*POReplay); ok && st.Hook != nil && rp.PO.deferredIsSite(st, d) {
+			pos := st.pos(x.Pos())
+			if pos == "" {
+				pos = st.curPos()
+			}
+			act, err := rp.atSite(r, st, pos)
+			if err != nil {
+				return err
+			}
+			switch act {
+			case rpSwitched:
+				f.Defers = append(f.Defers, d)
+				return nil
+			case rpStop:
+				return pathEnd{EndInfeasible, "replay: schedule complete"}
+			case rpDiverged:
+				return pathEnd{EndInfeasible, "replay: diverged"}
+			}
+		}
 		return r.callDeferred(st, d)
 
 	case *ssa.Go:
@@ -942,7 +1014,8 @@ func (r *Run) exec(st *State, f *Frame, in ssa.Instruction) error {
 		for _, a := range c.Args {
 			args = append(args, r.get(st, a))
 		}
-		if po, ok := st.Hook.(*PO); ok && st.Hook != nil {
+		_, isReplay := st.Hook.(*POReplay)
+		if po, ok := st.Hook.(*PO); (ok || isReplay) && st.Hook != nil {
 			var fv Func
 			if c.IsInvoke() {
 				ifc, ok := r.get(st, c.Value).(Iface)
@@ -962,7 +1035,11 @@ func (r *Run) exec(st *State, f *Frame, in ssa.Instruction) error {
 					return unknownf("go on %T", r.get(st, c.Value))
 				}
 			}
-			if err := po.spawn(st, fv, args, x.Pos()); err != nil {
+			if isReplay {
+				if err := st.Hook.(*POReplay).spawn(r, st, fv, args); err != nil {
+					return err
+				}
+			} else if err := po.spawn(st, fv, args, x.Pos()); err != nil {
 				return err
 			}
 			f.PC++
